@@ -24,6 +24,7 @@
 //  Includes
 // ---------------------------------------------------------------------------
 #include <xercesc/util/SynchronizedStringPool.hpp>
+#include <xercesc/util/VerifHooks.hpp>
 
 
 namespace XERCES_CPP_NAMESPACE {
@@ -59,6 +60,7 @@ unsigned int XMLSynchronizedStringPool::addOrFind(const XMLCh* const newString)
     unsigned int constCount = fConstPool->getStringCount();
     XMLMutexLock lockInit(&fMutex);
     id = XMLStringPool::addOrFind(newString);
+    VERIF_EVS("Acc", "sp_add", "obj,c,rw,val,h", (long long)this, constCount, 1, id, XMLString::hash(newString, 1000003));
     return id+constCount;
 }
 
